@@ -158,3 +158,33 @@ func C03SetProxyTags(s *Session, t []uint32) {
 }
 
 func C03IsNop(n *com.Packet) bool { return isPacketNoP(n) }
+
+// ---- the proxy's send queue for one of its clients (proxyClient) and the client's side
+
+// C03PC wraps a proxyClient whose only live parts are the send queue, peek and state.
+type C03PC struct{ c *proxyClient }
+
+func C03NewPC(id device.ID) *C03PC {
+	return &C03PC{c: &proxyClient{ID: id, send: make(chan *com.Packet, 128), wake: make(chan struct{}, 1)}}
+}
+func (p *C03PC) Push(n *com.Packet) bool {
+	select {
+	case p.c.send <- n:
+		return true
+	default:
+		return false
+	}
+}
+func (p *C03PC) Next(i bool) *com.Packet { return p.c.next(i) }
+func (p *C03PC) Peek() *com.Packet       { return p.c.peek }
+func (p *C03PC) QLen() int               { return len(p.c.send) }
+
+// C03ClientReceive is what a client Session does with a packet it read from its (proxied)
+// connection: receive(s, nil, n).
+func (w *C03World) C03ClientReceive(id device.ID, n *com.Packet) error {
+	s, ok := w.srv.sessions[id.Hash()]
+	if !ok {
+		panic("c03: client session not registered")
+	}
+	return receive(s, nil, n)
+}
